@@ -106,6 +106,100 @@ def _term(t, lo, bo):
     return list(t)
 
 
+def _const_of(rv):
+    """('bool', v) / ('variant', name) for a constant boolean or a unit / wrapping enum-variant aggregate, else None."""
+    if rv[0] == "use" and rv[1][0] == "k" and isinstance(rv[1][2], bool):
+        return ("bool", rv[1][2])
+    if rv[0] == "agg" and rv[1] == "adt" and "::" in rv[2]:
+        return ("variant", rv[2])
+    return None
+
+
+def _variant_idx(name):
+    if name.startswith("std::option::Option::"):
+        return {"None": 0, "Some": 1}.get(name.rsplit("::", 1)[1])
+    if name.startswith("std::result::Result::"):
+        return {"Ok": 0, "Err": 1}.get(name.rsplit("::", 1)[1])
+    return None
+
+
+def _thread_constant_returns(blocks, bo, n, ret_local, target):
+    """Jump threading for `return <constant>` in an inlined helper: when a path of the callee assigns a constant bool / Option /
+    Result variant to its return place and the caller immediately switches on the result, that path is sent straight to the
+    matching switch target (through a private copy of the trivial continuation). Without this every `return false` of a helper
+    would appear to be able to take the caller's `true` branch."""
+    if target is None or target >= len(blocks):
+        return
+    T = blocks[target]
+    tt = T["t"]
+    if tt[2] != "switch" or tt[3][0] not in ("c", "m") or tt[3][1][1]:
+        return
+    # find the caller's dest: the local the inlined return blocks assign (`dest = move ret`)
+    dest = None
+    for i in range(bo, bo + n):
+        for st in blocks[i]["s"]:
+            if st[2] == "=" and st[4][0] == "use" and st[4][1][0] == "m" and st[4][1][1] == [ret_local, []] and not st[3][1]:
+                dest = st[3][0]
+    if dest is None:
+        return
+    # continuation statements must be trivial and define the switch operand from dest
+    sw_local = tt[3][1][0]
+    kind = None
+    for st in T["s"]:
+        if st[2] == "dead":
+            continue
+        if st[2] == "=" and not st[3][1] and st[3][0] == sw_local and st[4][0] == "discr" and st[4][1] == [dest, []]:
+            kind = "discr"
+            continue
+        if st[2] == "=" and not st[3][1] and st[3][0] == sw_local and st[4][0] == "use" and st[4][1][0] in ("c", "m") and st[4][1][1] == [dest, []]:
+            kind = "bool"
+            continue
+        return
+    if sw_local == dest:
+        kind = "bool"
+    if kind is None:
+        return
+
+    def pick(c):
+        if kind == "bool" and c[0] == "bool":
+            v = 1 if c[1] else 0
+        elif kind == "discr" and c[0] == "variant":
+            v = _variant_idx(c[1])
+            if v is None:
+                return None
+        else:
+            return None
+        for val, tg in tt[4]:
+            if val == v:
+                return tg
+        return tt[5]
+    ret_blocks = set(i for i in range(bo, bo + n) if any(st[2] == "=" and st[4][0] == "use" and st[4][1][0] == "m" and st[4][1][1] == [ret_local, []] and st[3] == [dest, []] for st in blocks[i]["s"]))
+    for i in range(bo, bo + n):
+        b = blocks[i]
+        if b["t"][2] != "goto":
+            continue
+        # last assignment to the callee's return place in this block
+        c = None
+        for st in b["s"]:
+            if st[2] == "=" and st[3] == [ret_local, []]:
+                c = _const_of(st[4])
+        if c is None:
+            continue
+        # follow trivial gotos to a return block
+        j, hops, extra = b["t"][3], 0, []
+        while j not in ret_blocks and hops < 4 and bo <= j < bo + n and blocks[j]["t"][2] == "goto" and all(st[2] == "dead" for st in blocks[j]["s"]):
+            extra += blocks[j]["s"]
+            j = blocks[j]["t"][3]
+            hops += 1
+        if j not in ret_blocks:
+            continue
+        tg = pick(c)
+        if tg is None:
+            continue
+        nb = {"c": b["c"], "s": list(b["s"]) + extra + list(blocks[j]["s"]) + list(T["s"]), "t": [b["t"][0], b["t"][1], "goto", tg]}
+        blocks[i] = nb
+
+
 def inlinable(prog, caller_name, callee_name, stack):
     g = prog.raw_fns.get(callee_name)
     if g is None or callee_name == caller_name or callee_name in stack:
@@ -170,6 +264,7 @@ def inline_raw(prog, name, depth=3, stack=()):
                         elif gt[2] == "resume" and unwind is not None:
                             nb["t"] = [gt[0], gt[1], "goto", unwind]
                         blocks.append(nb)
+                    _thread_constant_returns(blocks, bo, len(g["blocks"]), lo, target)
                     out.setdefault("inl_ret", list(raw.get("inl_ret", [])))
                     out["inl_ret"] = out["inl_ret"] + [lo] + [x + lo for x in g.get("inl_ret", [])]
                     inlined.append(callee)
